@@ -35,7 +35,7 @@ Local Open Scope nat_scope.
 Theorem C06_statements_keep_func_and_handler_tables :
   forall (B : benv) (fuel : nat) (s : pst) (r : option stmt) (s' : pst),
   parse_statement B fuel s = Ok r s' -> bodies s' = bodies s /\ hds s' = hds s.
-Proof. intros B fuel s r s' H. pose proof (stmt_kb B fuel s r s' H) as K. unfold kb in K. injection K as K1 K2. auto. Qed.
+Proof. exact stmt_keeps_tables. Qed.
 Print Assumptions C06_statements_keep_func_and_handler_tables.
 
 (* one func declaration at top level: name, optional return type, parameters, optional variadic parameter, body *)
